@@ -118,6 +118,15 @@ class Ctx:
                 return None
             if p.endswith(A("entries_memory")) and is_arg(s.a[0], "self"):
                 return {"L": 1}
+            if last in ("max", "min") and ("cmp::" in p or "Ord" in p) and len(s.a) == 2:
+                # max(a, b) is some value m with m >= a and m >= b (min: m <= a, m <= b)
+                x, y = self.lin(s.a[0], s.x.get("site", at), depth), self.lin(s.a[1], s.x.get("site", at), depth)
+                if x is None or y is None:
+                    return None
+                sym = f"m{s.x.get('site')}"
+                sg = 1 if last == "max" else -1
+                self.extra_facts += [LA.scale(LA.add({sym: 1}, x, -1), sg), LA.scale(LA.add({sym: 1}, y, -1), sg)]
+                return {sym: 1}
             # small pure helpers of Entries: evaluate their return expression under the current field values
             if p.startswith("sorter::Entries::") and self.F.has_body(p) and depth < 3:
                 cb = self.F.body(p)
@@ -134,6 +143,8 @@ class Ctx:
             return None
         if s.k == "arg" and self.is_closure:
             return None
+        if s.k == "arg" and s.x.get("ty") == "usize":
+            return {"p_" + (s.x.get("name") or str(s.x["i"])): 1}     # an unsigned parameter: some value >= 0
         return None
 
     def lin_fixed(self, e, depth):
